@@ -403,8 +403,10 @@ def _run_check(ctx: Ctx, check: PropertyCheck, replay: str | None) -> int:
         "wall_s": round(time.time() - t0, 2),
         "violations": len(reported),
     }
-    EVID.mkdir(exist_ok=True)
-    (EVID / f"{check.ID}.json").write_text(json.dumps(ev, indent=1))
+    # self-test runs against a scratch copy (VERIF_REPO) must not overwrite the evidence of the real tree
+    evdir = (OUT / "selftest_evidence") if os.environ.get("VERIF_REPO") else EVID
+    evdir.mkdir(parents=True, exist_ok=True)
+    (evdir / f"{check.ID}.json").write_text(json.dumps(ev, indent=1))
     print(f"{check.ID} {ctx.tier}: model states={ev['coverage']['states']} transitions={ev['coverage']['transitions']} "
           f"traces={len(traces)} (distinct {distinct_traces}) drift={drift} known={sum(known_hit.values())} "
           f"violations={len(reported)} wall={ev['wall_s']}s")
